@@ -1,3 +1,4 @@
+import RedoModel.Props.C17d
 import RedoModel.Props.C17c
 import RedoModel.Props.C17a
 import RedoModel.Props.C17b
